@@ -120,3 +120,45 @@ Print Assumptions attr_hole_invariant.
 Example escape_example : escape [60;97;38;34;39;62] = [38;108;116;59;97;38;97;109;112;59;38;35;51;52;59;38;35;51;57;59;38;103;116;59]
   /\ unescape5 (escape [60;97;38;34;39;62;38;97;109;112;59]) = [60;97;38;34;39;62;38;97;109;112;59].
 Proof. vm_compute. split; reflexivity. Qed.
+
+(* ---- the read-back and structure clauses for DYNAMIC ATTRIBUTES at render level (Proofs/DynReadback.v, session 3).
+   The printed open tag of an element with dynamic attributes (DynReplaces.spec_open_tag), scanned again, is ONE tag
+   token with the same name whose attributes are, in order: for each dynamic attribute its name with the raw value
+   DQ x DQ where x = escape v and unescape5 x = v — for ANY evaluated strings v, no condition on them — then the kept
+   plain attributes as written.  For two value lists the scans have the same tag name and the same attribute NAMES.
+   printable = well-formedness of the names and plain values, satisfied by every scanned tag (printable_of_scan);
+   the kept plain attributes must have non-empty names: the observed exception is recorded in
+   DynReadback.empty_name_static_observed. *)
+From Tpl Require Import Proofs.DynReplaces Proofs.DynReadback.
+Theorem dyn_render_readback : forall is_space to_lower text_tags attr_prefix (compile : attr -> bool) mgr,
+  is_space cSP = true -> is_space cGT = false -> is_space cEQ = false -> is_space cDQ = false ->
+  forall name statics dyns values S,
+  Readback.after_tag to_lower text_tags S -> printable is_space attr_prefix mgr name statics dyns ->
+  length values = length dyns -> IdemRescan.ccl compile (printed_shapes mgr statics dyns values) ->
+  exists T p' A K,
+    fold_left (Scan.step is_space to_lower text_tags attr_prefix compile) (spec_open_tag mgr name statics dyns values) S
+      = mkS (T :: s_toks S) p' MInit /\
+    t_kind T = KTag /\ t_name T = name /\ t_attrs T = A ++ K /\
+    Forall2 (reads_back mgr) A (combine dyns values) /\
+    map PrintScanDefs.ashape K = map PrintScanDefs.ashape (kept mgr dyns statics).
+Proof. exact DynReadback.dyn_render_readback. Qed.
+Theorem dyn_structure_invariant : forall is_space to_lower text_tags attr_prefix (compile : attr -> bool) mgr,
+  is_space cSP = true -> is_space cGT = false -> is_space cEQ = false -> is_space cDQ = false ->
+  forall name statics dyns values1 values2 S,
+  Readback.after_tag to_lower text_tags S -> printable is_space attr_prefix mgr name statics dyns ->
+  length values1 = length dyns -> length values2 = length dyns ->
+  IdemRescan.ccl compile (printed_shapes mgr statics dyns values1) -> IdemRescan.ccl compile (printed_shapes mgr statics dyns values2) ->
+  exists T1 T2 p1 p2,
+    fold_left (Scan.step is_space to_lower text_tags attr_prefix compile) (spec_open_tag mgr name statics dyns values1) S
+      = mkS (T1 :: s_toks S) p1 MInit /\
+    fold_left (Scan.step is_space to_lower text_tags attr_prefix compile) (spec_open_tag mgr name statics dyns values2) S
+      = mkS (T2 :: s_toks S) p2 MInit /\
+    t_kind T1 = t_kind T2 /\ t_name T1 = t_name T2 /\
+    map a_name (t_attrs T1) = map a_name (t_attrs T2) /\
+    skipn (length dyns) (map PrintScanDefs.ashape (t_attrs T1)) = skipn (length dyns) (map PrintScanDefs.ashape (t_attrs T2)).
+Proof. exact DynReadback.dyn_structure_invariant. Qed.
+(* ... and for the OUTPUT of the renderer on an element of a scanned source *)
+Definition dyn_element_render_readback := @DynReadback.dyn_element_render_readback_scanned.
+Print Assumptions dyn_render_readback.
+Print Assumptions dyn_structure_invariant.
+Print Assumptions dyn_element_render_readback.
